@@ -512,7 +512,7 @@ func (g *progGen) genSpec(depth int) *GenSpec {
 		}
 		return &GenSpec{K: "perm", A: t.Int("gen.perm", 0, 6)}
 	case 7:
-		if t.Chance("gen.makemap", 20) {
+		if t.Chance("gen.makemap", 35) {
 			if t.Chance("gen.makepair", 50) {
 				return &GenSpec{K: "makepair", A: t.Pick("gen.pairtype", 2)}
 			}
